@@ -23,13 +23,26 @@ open CV CV.Driver CV.Backend
 
 def usizeBits : Nat := 64
 
+/-- numbers of the protocol fit in 128 bits (the harness parses them as `u128`); anything
+    larger is unparseable on both sides -/
+def parseHexB (s : String) : Option Nat :=
+  match parseHex s with
+  | some n => if n < 2^128 then some n else none
+  | none => none
+
+def parseListB (s : String) : Option (List Nat) :=
+  if s == "-" then some [] else
+  (s.splitOn ",").foldr (fun t acc => match parseHexB t, acc with
+    | some v, some l => some (v :: l)
+    | _, _ => none) (some [])
+
 def parseUsize (s : String) : Option Nat :=
   match parseHex s with
   | some n => if n < 2^usizeBits then some n else none
   | none => none
 
 def parseWords (W : Nat) (s : String) : Option (List Nat) :=
-  (parseList s).map (fun l => l.map (narrow W))
+  (parseListB s).map (fun l => l.map (narrow W))
 
 def parseScript (W : Nat) (s : String) : Option (List (Option Item)) :=
   if s == "-" then some [] else
@@ -39,7 +52,7 @@ def parseScript (W : Nat) (s : String) : Option (List (Option Item)) :=
     | some l =>
       if t == "x" then some (some Item.err :: l)
       else if t == "_" then some (none :: l)
-      else match parseHex t with
+      else match parseHexB t with
         | some v => some (some (Item.word (narrow W v)) :: l)
         | none => none) (some [])
 
@@ -111,7 +124,7 @@ def doInit (kind : String) (W : Nat) (seg : List String) : Option (Backend × St
     | _ => none
   | "backend.callback" =>
     match seg with
-    | ["fallible", fa] => (parseList fa).map (fun l => (.cbF { log := [], calls := 0, failAt := l }, "ok"))
+    | ["fallible", fa] => (parseListB fa).map (fun l => (.cbF { log := [], calls := 0, failAt := l }, "ok"))
     | ["infallible"] => some (.cbI { log := [], calls := 0, failAt := [] }, "ok")
     | _ => none
   | _ => none
@@ -120,7 +133,7 @@ def parseOp (W : Nat) (b : Backend) (seg : List String) : Option Op :=
   match seg with
   | ["read_s"] => some .readS
   | ["read_q"] => some .readQ
-  | ["write", w] => (parseHex w).map (fun v => .write (narrow W v))
+  | ["write", w] => (parseHexB w).map (fun v => .write (narrow W v))
   | ["extend_from_iter", ws] => (parseWords W ws).map .extend
   | ["remaining_s"] => some .remS
   | ["remaining_q"] => some .remQ
@@ -154,7 +167,7 @@ def runOps (W : Nat) : Backend → List (List String) → List String → List S
 def handle (segs : List (List String)) : String :=
   match segs with
   | [kind, w] :: init :: ops =>
-    match parseHex w with
+    match parseHexB w with
     | some W =>
       if W == 8 || W == 16 || W == 32 || W == 64 then
         match doInit kind W init with
